@@ -483,3 +483,234 @@ Lemma survives_thm : forall c h (bl : list blob) outs, bl <> [] ->
   let p := attempts c h bl retries (OOk :: outs) in
   p_res p = PNil /\ p_events p = genuine_events c h bl /\ p_outs p = outs.
 Proof. intros c h bl outs Hne. apply (attempts_ok_first c h bl 9 outs Hne). Qed.
+
+(* ==== the loop with its two wake-up channels (Model/Retriever.v, lturn / lrun) ========================= *)
+
+Lemma process_no_height : forall c cur, p_res (process c cur no_height) = PFuture.
+Proof. reflexivity. Qed.
+
+(* one iteration: examines the cursor's height; passes it (by one) exactly when the call returned nil *)
+Lemma iterate_spec : forall c st,
+  let '(st1, r, adv) := iterate c st in
+  i_height r = s_cursor st /\ i_loop r = true /\ s_cursor st1 = i_next r /\
+  (adv = true <-> i_result r = PNil) /\
+  i_next r = (if adv then s_cursor st + 1 else s_cursor st) /\
+  (adv = true -> exists hi, s_rest st = hi :: s_rest st1) /\
+  (adv = false -> length (s_rest st1) = length (s_rest st)).
+Proof.
+  intros c [cur rest]. unfold iterate. cbn [s_cursor s_rest]. destruct rest as [|hi rest'].
+  - cbn [mk_rec i_height i_loop i_next i_result s_cursor s_rest]. rewrite process_no_height.
+    repeat split; try reflexivity; try discriminate.
+  - destruct (p_res (process c cur hi)) eqn:Hres;
+      cbn [mk_rec i_height i_loop i_next i_result s_cursor s_rest]; rewrite ?Hres;
+      repeat split; try reflexivity; try discriminate.
+    intros _. exists hi. reflexivity.
+Qed.
+
+(* [scan] is [iterate] repeated as long as the height is passed *)
+Lemma scan_iterate : forall c st,
+  scan c (s_cursor st) (s_rest st) =
+  let '(st1, r, adv) := iterate c st in
+  if adv then let '(st2, rs) := scan c (s_cursor st1) (s_rest st1) in (st2, r :: rs) else (st1, [r]).
+Proof.
+  intros c [cur rest]. unfold iterate. cbn [s_cursor s_rest]. destruct rest as [|hi rest'].
+  - reflexivity.
+  - cbn [scan]. destruct (p_res (process c cur hi)); cbn [s_cursor s_rest]; reflexivity.
+Qed.
+
+Lemma send_token_nonblocking : forall full, send_token RNonBlocking full = Some true.
+Proof. destruct full; reflexivity. Qed.
+
+(* ---- the re-arm never blocks ------------------------------------------------------------------------- *)
+Lemma lturn_not_stuck : forall c ls t, l_stuck ls = false -> l_stuck (fst (lturn RNonBlocking c ls t)) = false.
+Proof.
+  intros c ls t Hs. unfold lturn. rewrite Hs.
+  destruct (negb (l_tick ls || l_tok ls)); [reflexivity|].
+  destruct (iterate c (l_scan ls)) as [[st1 r] adv].
+  destruct adv; [rewrite send_token_nonblocking|]; reflexivity.
+Qed.
+
+Lemma never_blocks_thm : forall c ts ls, l_stuck ls = false -> l_stuck (fst (lrun RNonBlocking c ls ts)) = false.
+Proof.
+  intros c ts. induction ts as [|t ts IH]; intros ls Hs; [exact Hs|].
+  cbn [lrun]. pose proof (lturn_not_stuck c ls t Hs) as H1.
+  destruct (lturn RNonBlocking c ls t) as [ls1 recs]. cbn [fst] in H1.
+  specialize (IH ls1 H1). destruct (lrun RNonBlocking c ls1 ts) as [ls2 rr]. exact IH.
+Qed.
+
+(* ---- every pending wake-up is served, whichever channel select takes and whenever ticks arrive; after a
+   passed height the token is in the channel again, so the next select does not wait -------------------- *)
+Lemma turn_served_thm : forall c ls t,
+  l_stuck ls = false -> l_tick ls || l_tok ls = true ->
+  exists r, snd (lturn RNonBlocking c ls t) = [r] /\
+            i_height r = s_cursor (l_scan ls) /\ i_loop r = true /\
+            l_stuck (fst (lturn RNonBlocking c ls t)) = false /\
+            s_cursor (l_scan (fst (lturn RNonBlocking c ls t))) = i_next r /\
+            (i_result r = PNil -> l_tok (fst (lturn RNonBlocking c ls t)) = true /\ i_next r = i_height r + 1) /\
+            (i_result r <> PNil -> i_next r = i_height r).
+Proof.
+  intros c ls t Hs Hp. unfold lturn. rewrite Hs, Hp. cbn [negb].
+  pose proof (iterate_spec c (l_scan ls)) as S.
+  destruct (iterate c (l_scan ls)) as [[st1 r] adv].
+  destruct S as (Hh & Hl & Hc & Hadv & Hn & _ & _).
+  exists r. destruct adv.
+  - rewrite send_token_nonblocking. cbn [fst snd l_stuck l_scan l_tok].
+    split; [reflexivity|]. split; [exact Hh|]. split; [exact Hl|]. split; [reflexivity|]. split; [exact Hc|].
+    split.
+    + intros _. split; [reflexivity|]. rewrite Hn, Hh. reflexivity.
+    + intros Hne. exfalso. apply Hne. apply Hadv. reflexivity.
+  - cbn [fst snd l_stuck l_scan l_tok].
+    split; [reflexivity|]. split; [exact Hh|]. split; [exact Hl|]. split; [reflexivity|]. split; [exact Hc|].
+    split.
+    + intros Hr. apply Hadv in Hr. discriminate.
+    + intros _. rewrite Hn, Hh. reflexivity.
+Qed.
+
+(* ---- ticks and select's choices only decide HOW MANY wake-ups are served: the iterations of any loop run
+   are an initial part of the iterations of [scan]-wake-ups served one after the other ----------------- *)
+Lemma run_from_signal : forall c st k,
+  run_from c st (repeat ISignal (S k)) =
+  let '(st1, recs) := scan c (s_cursor st) (s_rest st) in
+  let '(st2, rr) := run_from c st1 (repeat ISignal k) in (st2, recs :: rr).
+Proof. reflexivity. Qed.
+
+Lemma lrun_refines_gen : forall c ts ls, l_stuck ls = false ->
+  exists k, is_prefix (literations RNonBlocking c ls ts) (concat (snd (run_from c (l_scan ls) (repeat ISignal k)))).
+Proof.
+  intros c ts. induction ts as [|t ts IH]; intros ls Hs.
+  - exists O. exists []. reflexivity.
+  - unfold literations. cbn [lrun].
+    pose proof (lturn_not_stuck c ls t Hs) as Hs1.
+    unfold lturn in *. rewrite Hs in *.
+    destruct (negb (l_tick ls || l_tok ls)).
+    + (* waiting: nothing happens *)
+      cbn [fst] in Hs1.
+      match goal with |- context [lrun RNonBlocking c ?l ts] => set (ls1 := l) in * end.
+      destruct (IH ls1 Hs1) as (k & s & Hk). unfold literations in Hk.
+      destruct (lrun RNonBlocking c ls1 ts) as [ls2 rr]. cbn [snd concat app] in *.
+      exists k. exists s. exact Hk.
+    + pose proof (scan_iterate c (l_scan ls)) as Hsc.
+      destruct (iterate c (l_scan ls)) as [[st1 r] adv].
+      destruct adv.
+      * rewrite send_token_nonblocking in *. cbn [fst] in Hs1.
+        match goal with |- context [lrun RNonBlocking c ?l ts] => set (ls1 := l) in * end.
+        destruct (IH ls1 Hs1) as (k & s & Hk). unfold literations in Hk.
+        destruct (lrun RNonBlocking c ls1 ts) as [ls2 rr]. cbn [snd concat] in *.
+        subst ls1. cbn [l_scan] in Hk.
+        destruct (scan c (s_cursor st1) (s_rest st1)) as [st2 rs] eqn:Esc.
+        destruct k as [|k].
+        -- (* the rest of the run made no iteration *)
+           cbn [repeat run_from snd concat] in Hk.
+           destruct (concat rr); [|destruct s; discriminate].
+           exists 1%nat. rewrite run_from_signal, Hsc. cbn [repeat run_from snd concat].
+           exists rs. rewrite app_nil_r. reflexivity.
+        -- exists (S k). rewrite run_from_signal in Hk. rewrite Esc in Hk.
+           rewrite run_from_signal, Hsc.
+           destruct (run_from c st2 (repeat ISignal k)) as [st3 rr3]. cbn [snd concat] in *.
+           exists s. cbn [app]. rewrite Hk. reflexivity.
+      * cbn [fst] in Hs1.
+        match goal with |- context [lrun RNonBlocking c ?l ts] => set (ls1 := l) in * end.
+        destruct (IH ls1 Hs1) as (k & s & Hk). unfold literations in Hk.
+        destruct (lrun RNonBlocking c ls1 ts) as [ls2 rr]. cbn [snd concat] in *.
+        subst ls1. cbn [l_scan] in Hk.
+        exists (S k). rewrite run_from_signal, Hsc.
+        destruct (run_from c st1 (repeat ISignal k)) as [st3 rr3]. cbn [snd concat] in *.
+        exists s. cbn [app]. rewrite Hk. reflexivity.
+Qed.
+
+Lemma ticks_refine_thm : forall c da tick ts,
+  exists k, is_prefix (literations RNonBlocking c (linit c da tick) ts) (iterations c da (repeat ISignal k)).
+Proof. intros c da tick ts. apply (lrun_refines_gen c ts (linit c da tick)). reflexivity. Qed.
+
+(* ---- consequences for the chain of iterations of any loop run ------------------------------------------ *)
+Lemma linked_prefix : forall a s cur, linked cur (a ++ s) -> linked cur a.
+Proof.
+  induction a as [|r a IH]; intros s cur H; [exact I|].
+  cbn [app linked] in *. destruct H as [H1 H2]. split; [exact H1|]. eapply IH. exact H2.
+Qed.
+
+Lemma lrun_cursor : forall m c ts ls,
+  s_cursor (l_scan (fst (lrun m c ls ts))) = last_next (s_cursor (l_scan ls)) (literations m c ls ts).
+Proof.
+  intros m c ts. induction ts as [|t ts IH]; intros ls; [reflexivity|].
+  unfold literations in *. cbn [lrun].
+  assert (H1 : s_cursor (l_scan (fst (lturn m c ls t))) = last_next (s_cursor (l_scan ls)) (snd (lturn m c ls t))).
+  { unfold lturn. destruct (l_stuck ls); [reflexivity|].
+    destruct (negb (l_tick ls || l_tok ls)); [reflexivity|].
+    pose proof (iterate_spec c (l_scan ls)) as S.
+    destruct (iterate c (l_scan ls)) as [[st1 r] adv]. destruct S as (_ & _ & Hc & _).
+    destruct adv; [destruct (send_token m _)|]; cbn [fst snd l_scan]; exact Hc. }
+  destruct (lturn m c ls t) as [ls1 recs]. cbn [fst snd] in H1.
+  specialize (IH ls1). destruct (lrun m c ls1 ts) as [ls2 rr]. cbn [fst snd concat] in *.
+  rewrite last_next_app, <- H1. exact IH.
+Qed.
+
+Lemma ticks_cursor_thm : forall c da tick ts,
+  let its := literations RNonBlocking c (linit c da tick) ts in
+  linked (boot c) its /\ Forall rec_ok its /\
+  Forall (fun r => emits_ok c r /\ i_blobs r = content c da (i_height r)) its /\
+  s_cursor (l_scan (fst (lrun RNonBlocking c (linit c da tick) ts))) = last_next (boot c) its.
+Proof.
+  intros c da tick ts its.
+  destruct (ticks_refine_thm c da tick ts) as (k & s & Hk). fold its in Hk.
+  destruct (cursor_thm c da (repeat ISignal k)) as (Hl & Hok & _).
+  pose proof (emits_thm c da (repeat ISignal k)) as Hem.
+  rewrite Hk in Hl, Hok, Hem.
+  split; [eapply linked_prefix; exact Hl|].
+  split; [apply Forall_app in Hok; apply Hok|].
+  split; [apply Forall_app in Hem; apply Hem|].
+  exact (lrun_cursor RNonBlocking c ts (linit c da tick)).
+Qed.
+
+Lemma ticks_no_skip_thm : forall c da tick ts n,
+  boot c <= n < s_cursor (l_scan (fst (lrun RNonBlocking c (linit c da tick) ts))) ->
+  exists r, In r (literations RNonBlocking c (linit c da tick) ts) /\ i_height r = n /\ i_next r = n + 1 /\
+            i_loop r = true /\ i_result r = PNil /\
+            (last (i_classes r) AError = ASuccess \/ last (i_classes r) AError = ANotFound) /\
+            i_events r = (if succeeded (i_classes r) then genuine_events c n (content c da n) else []).
+Proof.
+  intros c da tick ts n Hn.
+  destruct (ticks_cursor_thm c da tick ts) as (Hl & Hok & Hem & Hc). cbv zeta in *. rewrite Hc in Hn.
+  destruct (passes_every _ _ _ Hl (Forall_impl _ rec_ok_step Hok) Hn) as (r & Hin & Hh & Hnx).
+  exists r. split; [exact Hin|]. split; [exact Hh|]. split; [exact Hnx|].
+  pose proof (proj1 (Forall_forall _ _) Hok r Hin) as Hr.
+  pose proof (proj1 (Forall_forall _ _) Hem r Hin) as [Hem1 Hct].
+  assert (Hadv : i_next r = i_height r + 1) by lia.
+  destruct Hr as (Hc1 & Hc2 & (k & Hk) & Hnext).
+  rewrite Hnext in Hadv.
+  destruct (i_result r) eqn:Hres; try lia. destruct (i_loop r) eqn:Hlp; try lia.
+  split; [reflexivity|]. split; [reflexivity|].
+  destruct Hk as [(_ & _ & Hx)|(Hk & a & Ha & Hcl & Hx)]; [discriminate|].
+  unfold emits_ok in Hem1. rewrite Hct, Hh in Hem1.
+  split; [|exact Hem1].
+  rewrite Hcl, last_last.
+  destruct a; cbn [result_of] in Hx; try discriminate; auto.
+Qed.
+
+(* ---- catch-up: over heights the DA serves, the cursor reaches their end after as many turns, whatever
+   ticks arrive during them and whichever ready channel select takes ------------------------------------- *)
+Lemma catch_up_thm : forall c pre rest cur tick tok ts,
+  tick || tok = true -> all_pass c cur pre -> length ts = length pre ->
+  let ls' := fst (lrun RNonBlocking c {| l_scan := {| s_cursor := cur; s_rest := pre ++ rest |};
+                                         l_tick := tick; l_tok := tok; l_stuck := false |} ts) in
+  s_cursor (l_scan ls') = cur + N.of_nat (length pre) /\ s_rest (l_scan ls') = rest /\
+  l_stuck ls' = false /\ l_tok ls' = (match pre with [] => tok | _ => true end) /\
+  length (literations RNonBlocking c {| l_scan := {| s_cursor := cur; s_rest := pre ++ rest |};
+                                        l_tick := tick; l_tok := tok; l_stuck := false |} ts) = length pre.
+Proof.
+  intros c pre rest. induction pre as [|hi pre IH]; intros cur tick tok ts Hp Hall Hlen.
+  - destruct ts; [|discriminate]. cbn. repeat split; try reflexivity. lia.
+  - destruct ts as [|t ts]; [discriminate|]. cbn [length] in Hlen.
+    cbn [all_pass] in Hall. destruct Hall as [Hres Hall].
+    unfold literations. cbn [lrun]. unfold lturn. cbn [l_stuck l_tick l_tok l_scan]. rewrite Hp. cbn [negb].
+    unfold iterate. cbn [s_cursor s_rest app]. rewrite Hres. rewrite send_token_nonblocking.
+    specialize (IH (cur + 1)
+                   ((if (if tick && tok then t_pick_tick t else tick) then false else tick) || t_tick t)
+                   true ts).
+    cbv zeta in IH. unfold literations in IH.
+    destruct (lrun RNonBlocking c _ ts) as [ls2 rr] eqn:E. cbn [fst snd concat] in *.
+    destruct IH as (A & B & C & D & L); [apply orb_true_r|exact Hall|lia|].
+    split; [rewrite A; cbn [length]; lia|]. split; [exact B|]. split; [exact C|].
+    split; [destruct pre; exact D|].
+    cbn [app length]. rewrite L. reflexivity.
+Qed.
